@@ -8,9 +8,14 @@ From Coq Require Import String.
 Open Scope string_scope.
 Open Scope Z_scope.
 
-Definition enc_ival (u : ival) : val := let '(c, a, b) := u in VTuple [VInt c; VInt a; VInt b].
-Notation enc_used u := (VList (map enc_ival u)).
-Notation enc_hu hu := (VList (map (fun u : used => enc_used u) hu)).
+(* an interval of the haps_used table; [ec] encodes the chromosome key (the kernel relations use
+   ints, _convert_haplotype registers the command-line string, or the int 23 for X) *)
+Definition enc_ival_g (ec : Z -> val) (u : ival) : val := let '(c, a, b) := u in VTuple [ec c; VInt a; VInt b].
+Notation enc_used_g ec u := (VList (map (enc_ival_g ec) u)).
+Notation enc_hu_g ec hu := (VList (map (fun u : used => enc_used_g ec u) hu)).
+Notation enc_ival := (enc_ival_g VInt).
+Notation enc_used u := (enc_used_g VInt u).
+Notation enc_hu hu := (enc_hu_g VInt hu).
 
 (* ---- evaluation of the translated code on observed histories (correspondence) ------ *)
 
@@ -76,3 +81,86 @@ Definition model_tv_kernel (k : kcase) : bool * list used :=
 Definition check_tv_kernel (k : kcase) : bool * bool :=
   let '(ok, hu) := model_tv_kernel k in
   (ok && list_eqb used_eqb hu (k_final k), holds_kernel k).
+
+(* ---- _convert_haplotype as translated, on observed calls (conv relation) ------------- *)
+From HV Require Import C03_Model C14_CheckConv.
+From HVG Require Import TVM_C01.
+
+(* chromosome as the command line gives it: the decimal string, or 'X' (token strlit_X) *)
+Definition enc_chrom_arg (c : Z) : val := if c =? 23 then VStr strlit_X else VNumStr c.
+(* ... and as _convert_haplotype registers it: the string, or the int 23 *)
+Definition enc_chrom_reg (c : Z) : val := if c =? 23 then VInt 23 else VNumStr c.
+Definition enc_ival_s (u : ival) : val := let '(c, a, b) := u in VTuple [enc_chrom_reg c; VInt a; VInt b].
+Definition enc_hu_s (hu : list used) : val := VList (map (fun u : used => VList (map enc_ival_s u)) hu).
+Definition dec_ival_s (v : val) : option ival :=
+  match v with
+  | VTuple [VNumStr c; VInt a; VInt b] => Some (c, a, b)
+  | VTuple [VInt c; VInt a; VInt b] => Some (c, a, b)
+  | _ => None
+  end.
+Definition dec_hu_s (v : val) : option (list used) :=
+  match v with
+  | VList l => dec_list (fun u => match u with VList x => dec_list dec_ival_s x | _ => None end) l
+  | _ => None
+  end.
+
+Notation label_tok k := (VStr (100 + k)).
+Definition enc_pop_dict (npop : Z) : val :=
+  VDict (map (fun i => (VInt i, label_tok i)) (zrange (Z.to_nat npop) 0)).
+Definition enc_pop_sample (t : poptab) : val :=
+  VDDict (map (fun kv : Z * list Z => (label_tok (fst kv), VList (map VInt (snd kv)))) t).
+Definition dec_zlist (v : val) : option (list Z) :=
+  match v with VList l => dec_list (fun x => match x with VInt z => Some z | _ => None end) l | _ => None end.
+Fixpoint dec_ddict (l : list (val * val)) : option poptab :=
+  match l with
+  | [] => Some []
+  | (VStr k, v) :: r =>
+      match dec_zlist v, dec_ddict r with
+      | Some zs, Some t => Some ((k - 100, zs) :: t)
+      | _, _ => None
+      end
+  | _ => None
+  end.
+
+Fixpoint zip_blocks (pos pops samp inds : list Z) : list block :=
+  match pos, pops, samp with
+  | e :: pr, q :: qr, s :: sr =>
+      match inds with
+      | h :: hr => mkb e q s h :: zip_blocks pr qr sr hr
+      | [] => mkb e q s (-1) :: zip_blocks pr qr sr []
+      end
+  | _, _, _ => []
+  end.
+
+Definition conv_args (k : vcase) : list val :=
+  [enc_segs (v_hap k); enc_chrom_arg (v_c k); enc_pop_dict (v_npop k);
+   enc_pop_sample (v_tab k);
+   iddict (zrange (Z.to_nat (lenZ (v_hu k) / 2 + 2)) 0);
+   enc_hu_s (v_hu k); VBool (v_norep k);
+   VList (map (fun p => VList (map VInt p)) (v_shuf k)); VList (map VInt (v_choice k))].
+
+(* result blocks, final haps_used, final population table *)
+Definition model_tv_conv (k : vcase) : res (list block * list used * poptab) :=
+  match fn__convert_haplotype tv_fuel (conv_args k) with
+  | Ok (VTuple [p1; p2; _; p4; p5], [_; _; _; VDDict ps; _; hu; _; _; _]) =>
+      match dec_zlist p1, dec_zlist p2, dec_zlist p4, dec_zlist p5, dec_hu_s hu, dec_ddict ps with
+      | Some a, Some b, Some c, Some d, Some h, Some t => Ok (zip_blocks a b c d, h, t)
+      | _, _, _, _, _, _ => Err E_Unsupported
+      end
+  | Ok _ => Err E_Unsupported
+  | Err e => Err e
+  end.
+
+(* the population table may have gained entries: a defaultdict creates the key it is asked for;
+   the model's table keeps only what was there, so empty additions are dropped before comparing *)
+Definition drop_empty (t : poptab) : poptab :=
+  filter (fun kv => match snd kv with [] => false | _ => true end) t.
+
+Definition check_tv_conv (k : vcase) : bool * bool :=
+  (match model_tv_conv k, v_obs k with
+   | Ok (bl, hu, t), Ok obl =>
+       block_list_eqb bl obl && hu_eqb hu (v_hu_after k)
+       && poptab_eqb (drop_empty t) (drop_empty (v_tab_after k))
+   | Err e, Err e' => e =? e'
+   | _, _ => false
+   end, holds_conv k).
